@@ -22,6 +22,7 @@ typedef struct {
 	int issuer_mismatch;  /* issuer field names somebody else */
 	char cn[12];
 	uint8_t serial[20]; size_t serial_len;
+	int pad;              /* > 0: one more non-critical extension (unknown OID) whose value is an OCTET STRING of that many octets: sizes a certificate */
 	int subj_extra, iss_extra; /* one more RDN (OU=X) behind the CN of the subject / of the issuer: two-RDN names, so that a one-RDN name is a proper prefix of them */
 } cert_spec;
 
@@ -35,7 +36,7 @@ static void spec_leaf(cert_spec *s, const char *cn, int ku) { memset(s, 0, sizeo
 static int make_name(uint8_t *name, size_t *nl, const char *cn) { *nl = 0; return x509_name_set(name, nl, 128, "CN", NULL, NULL, NULL, NULL, cn); }
 /* returns 1; cert DER appended at *out */
 static int make_cert(const cert_spec *s, const SM2_KEY *subject_key, const SM2_KEY *issuer_key, const char *issuer_cn, uint8_t *out, size_t *outlen) {
-	uint8_t subj[128], iss[128], exts[512]; size_t sl, il, el = 0; const SM2_KEY *other; creds_init(); other = &CK[11];
+	uint8_t subj[128], iss[128], exts[2400]; size_t sl, il, el = 0; const SM2_KEY *other; creds_init(); other = &CK[11];
 	if (make_name(subj, &sl, s->cn) != 1 || make_name(iss, &il, s->issuer_mismatch == 1 ? "ZZ" : issuer_cn) != 1) return -1;
 	/* near misses of the issuer name: 2 = the issuer's name plus one more RDN (OU=X) behind it, 3 = the issuer's name without its last RDN, 4 = last character of the CN changed */
 	if (s->issuer_mismatch == 2) { static const uint8_t extra[] = { 0x31, 0x0a, 0x30, 0x08, 0x06, 0x03, 0x55, 0x04, 0x0b, 0x13, 0x01, 0x58 }; memcpy(iss + il, extra, sizeof extra); il += sizeof extra; }
@@ -46,6 +47,7 @@ static int make_cert(const cert_spec *s, const SM2_KEY *subject_key, const SM2_K
 	if (s->ku >= 0 && x509_exts_add_key_usage(exts, &el, sizeof exts, s->ku_crit ? X509_critical : X509_non_critical, s->ku) != 1) return -3;
 	if (s->eku) { int kp[2]; size_t n = 1; kp[0] = s->eku == 1 ? OID_kp_server_auth : s->eku == 2 ? OID_kp_client_auth : s->eku == 3 ? OID_any_extended_key_usage : OID_kp_server_auth; if (s->eku == 4) { kp[1] = OID_kp_client_auth; n = 2; } if (x509_exts_add_ext_key_usage(exts, &el, sizeof exts, X509_non_critical, kp, n) != 1) return -4; }
 	if (s->unknown_ext) { static const uint8_t oid[] = { 0x06, 0x04, 0x2a, 0x03, 0x04, 0x05 }, tr[] = { 0x01, 0x01, 0xff }, val[] = { 0x04, 0x02, 0x05, 0x00 }; uint8_t b[32]; size_t n = 0; memcpy(b + n, oid, sizeof oid); n += sizeof oid; if (s->unknown_ext == 2) { memcpy(b + n, tr, 3); n += 3; } memcpy(b + n, val, sizeof val); n += sizeof val; el += der_put_tlv(exts + el, 0x30, b, n); }
+	if (s->pad > 0 && s->pad < 1500) { static const uint8_t oid[] = { 0x06, 0x04, 0x2a, 0x03, 0x04, 0x06 }; uint8_t b[1600], v[1520]; size_t n = 0; memcpy(b, oid, sizeof oid); n = sizeof oid; memset(v, 0x77, (size_t)s->pad); uint8_t inner[1540]; size_t il_ = der_put_tlv(inner, 0x04, v, (size_t)s->pad); n += der_put_tlv(b + n, 0x04, inner, il_); if (el + n + 8 > sizeof exts) return -6; el += der_put_tlv(exts + el, 0x30, b, n); }
 	uint8_t *p = out; size_t before = *outlen; (void)before; size_t len = 0; const SM2_KEY *sk = s->sig == 2 ? other : issuer_key;
 	int r = x509_cert_sign_to_der(s->version, s->serial, s->serial_len, OID_sm2sign_with_sm3, iss, il, s->nb, s->na, subj, sl, subject_key, NULL, 0, NULL, 0, (s->version == X509_version_v3 && el) ? exts : NULL, (s->version == X509_version_v3) ? el : 0, sk, SM2_DEFAULT_ID, SM2_DEFAULT_ID_LENGTH, &p, &len);
 	if (r != 1) return -5;
